@@ -199,6 +199,126 @@ def _syn_transfer_case(rng):
     return dict(kind="synthetic-transfer", tpl={"graph": tpl}, sub={"graph": host}, invert=inv, strategy=rng.choice(["all", "comp", "bt"]), mode="E")
 
 
+# ------------------------------------------------------------------ API surface, histories, degenerate values (round 3)
+
+API_SEEDS = [
+    # (name, reaction SMILES of the template, mode, substrate, backward substrate)
+    ("sn2", "[CH3:1][C:2]([H:5])([H:6])[Br:3].[O:4]([H:7])[H:8]>>[CH3:1][C:2]([H:5])([H:6])[O:4][H:8].[Br:3][H:7]", "E", "CC(C)CBr.O", "CC(C)CO.Br"),
+    ("quat", "[CH3:1][N:2]([CH3:3])[CH3:4].[CH3:5][I:6]>>[CH3:1][N+:2]([CH3:3])([CH3:4])[CH3:5].[I-:6]", "I", "CCN(C)C.CI", "CC[N+](C)(C)C.[I-]"),
+    ("ester", "[CH3:1][C:2](=[O:3])[OH:4].[OH:5][CH3:6]>>[CH3:1][C:2](=[O:3])[O:5][CH3:6].[OH2:4]", "I", "CC[C](=O)O.OC".replace("[C]", "C"), "CCC(=O)OC.O"),
+    ("mpv", "[C:1]([H:5])[O:2][H:6].[C:3]=[O:4]>>[C:1]=[O:2].[C:3]([H:5])[O:4][H:6]", "E", "CC(O)C.O=C(C)CC", "CC(=O)C.OC(C)CC"),
+    ("ring10", "[C:1][Br:2].[N:3]>>[C:1][N+:3].[Br-:2]", "I", "C1C2C3C4C5C6C7C8C9C%10C(Br)C%10C9C8C7C6C5C4C3C2C1.N", None),
+    ("big", "[C:1][Br:2].[N:3]>>[C:1][N+:3].[Br-:2]", "I", "CCCCCCCCCCCCBr.CCCCCCCCCCCN(C)C", None),
+]
+
+
+def _relabel_smiles(smi, rng, how):
+    """the same molecule(s) with atom-map numbers: 'full' = every atom, a random permutation of 1..n; 'partial' = some atoms
+    only, with numbers that COLLIDE with other atoms' index + 1; 'repeat' = numbers repeat; 'order' = no labels, random order"""
+    from rdkit import Chem
+    m = Chem.MolFromSmiles(smi)
+    n = m.GetNumAtoms()
+    perm = list(range(n))
+    rng.shuffle(perm)
+    m = Chem.RenumberAtoms(m, perm)
+    if how == "full":
+        nums = list(range(1, n + 1))
+        rng.shuffle(nums)
+        for a, k in zip(m.GetAtoms(), nums):
+            a.SetAtomMapNum(k)
+    elif how == "partial":
+        for a in m.GetAtoms():
+            if rng.random() < 0.4:
+                a.SetAtomMapNum(rng.choice([i + 1 for i in range(n) if i != a.GetIdx()]))
+        if not any(a.GetAtomMapNum() for a in m.GetAtoms()):
+            m.GetAtomWithIdx(n - 1).SetAtomMapNum(1)
+    elif how == "repeat":
+        for a in m.GetAtoms():
+            a.SetAtomMapNum(rng.choice([1, 1, 2, 7]))
+    return Chem.MolToSmiles(m, canonical=False)
+
+
+def _graph_form(smi, rng):
+    """the substrate as a caller-built nx graph: node ids are arbitrary (0, two-digit, shuffled insertion order)"""
+    from synkit.IO.chem_converter import smiles_to_graph
+    g = smiles_to_graph(smi, use_index_as_atom_map=False, drop_non_aam=False)
+    ids = rng.sample(range(0, 3 * g.number_of_nodes() + 12), g.number_of_nodes())
+    mp = dict(zip(list(g.nodes), ids))
+    order = list(g.nodes)
+    rng.shuffle(order)
+    nodes = [[mp[n], {k: (list(v) if isinstance(v, (list, tuple)) else v) for k, v in g.nodes[n].items() if k in ("element", "aromatic", "hcount", "charge", "neighbors", "atom_map")}] for n in order]
+    edges = [[mp[u], mp[v], {"order": float(d["order"])}] for u, v, d in g.edges(data=True)]
+    rng.shuffle(edges)
+    return {"graph": {"nodes": nodes, "edges": edges}}
+
+
+def _api_cases(rng, full):
+    K.quiet()
+    out = []
+    strategies = ["all", "comp", "bt"]
+
+    def base(name, r, mode, sub, inv=False, core=True, **kw):
+        c = dict(kind="api", tpl=dict(rsmi=r, core=core), sub=sub, invert=inv, strategy=rng.choice(strategies), mode=mode)
+        c.update(kw)
+        c["name"] = "api:%s:%s:%s" % (name, c.get("family", "?"), json.dumps({k: v for k, v in c.items() if k in ("sub", "sub_form", "tpl_form", "opts", "invert", "mode", "reads")}, sort_keys=True)[:160])
+        return c
+    import json
+    for name, r, mode, sub, bsub in API_SEEDS:
+        # --- substrate input forms
+        for how in ("order", "full", "partial", "partial", "repeat"):
+            out.append(base(name, r, mode, _relabel_smiles(sub, rng, how), family="sub-" + how))
+        out.append(base(name, r, mode, _graph_form(sub, rng), family="sub-graph"))
+        out.append(base(name, r, mode, _graph_form(sub, rng), family="sub-syngraph", sub_form="syngraph"))
+        out.append(base(name, r, mode, sub, family="sub-syngraph-smiles", sub_form="syngraph"))
+        # --- template forms
+        out.append(base(name, r, mode, sub, core=False, family="tpl-string", tpl_form="string"))
+        out.append(base(name, r, mode, sub, family="tpl-synrule", tpl_form="synrule"))
+        if bsub:
+            out.append(base(name, r, mode, _relabel_smiles(bsub, rng, "partial"), inv=True, family="bwd-partial"))
+            out.append(base(name, r, "I" if mode == "I" else mode, bsub, inv=True, family="bwd-reads", reads=3))
+            if mode == "I":
+                out.append(base(name, r, mode, bsub, inv=True, family="bwd-synrule", tpl_form="synrule"))
+        # --- constructor options (every one that exists; partial=True belongs to the partial-matching engine, outside C03)
+        for opts in (dict(strategy_enum=True), dict(canonicaliser=True), dict(via="from_smiles"), dict(via="positional"),
+                     dict(embed_pre_filter=True), dict(embed_threshold=10000), dict(automorphism=True),
+                     dict(embed_pre_filter=True, embed_threshold=10000, automorphism=True, canonicaliser=True, strategy_enum=True)):
+            out.append(base(name, r, mode, sub, family="opt-" + "+".join(sorted(opts)), opts=opts))
+        # --- repeated reads of the lazily cached attributes
+        out.append(base(name, r, mode, sub, family="reads", reads=3))
+        # --- histories: one process, several reactors
+        v = [_relabel_smiles(sub, rng, "order") for _ in range(3)]
+        lab = [_relabel_smiles(sub, rng, "full") for _ in range(2)] + [_relabel_smiles(sub, rng, "partial")]
+
+        def hist(fam, steps):
+            return dict(kind="history", family=fam, name="history:%s:%s:%s" % (name, fam, "|".join(str(st["sub"])[:40] for st in steps)), steps=steps)
+        out.append(hist("orders", [base(name, r, mode, x, family="step") for x in v]))
+        out.append(hist("orders-reversed", [base(name, r, mode, x, family="step") for x in reversed(v)]))
+        out.append(hist("numberings", [base(name, r, mode, x, family="step") for x in lab + [sub]]))
+        out.append(hist("options-then-default", [base(name, r, mode, sub, family="step", opts=dict(embed_pre_filter=True, strategy_enum=True), reads=2),
+                                                base(name, r, mode, sub, family="step"),
+                                                base(name, r, mode, v[0], family="step", opts=dict(canonicaliser=True))]))
+        out.append(hist("default-then-options", [base(name, r, mode, sub, family="step"),
+                                                base(name, r, mode, sub, family="step", opts=dict(embed_pre_filter=True, automorphism=True))]))
+        out.append(hist("results-mutated", [base(name, r, mode, sub, family="step", mutate_results=True),
+                                           base(name, r, mode, sub, family="step", reads=2),
+                                           base(name, r, mode, v[1], family="step")]))
+        g1, g2 = _graph_form(sub, rng), _graph_form(v[2], rng)
+        out.append(hist("graph-edited-in-place", [base(name, r, mode, g1, family="step", sub_ref="G"),
+                                                 base(name, r, mode, g2, family="step", sub_ref="G", edit_to_sub=True),
+                                                 base(name, r, mode, g1, family="step", sub_ref="G", edit_to_sub=True)]))
+        if bsub:
+            out.append(hist("fwd-then-bwd", [base(name, r, mode, sub, family="step", reads=2),
+                                            base(name, r, mode, bsub, inv=True, family="step", reads=3)]))
+    # --- degenerate values
+    r0, m0 = API_SEEDS[0][1], "E"
+    for sub in ("C", "O", "CCO.O", "[Br-]", "CBr.O", "BrC(Br)(Br)Br.O", "[CH3:0]CBr.O", "[CH3:0][CH2:0]Br.[OH2:0]", "CC[C:1](=O)OC.OCC", ""):
+        out.append(base("sn2", r0, m0, sub, family="degenerate"))
+    a0 = API_SEEDS[0][1].split(">>")[0]
+    out.append(base("sn2", r0, m0, "CCBr.O", core=False, family="degenerate-own-left"))
+    out.append(base("quat", API_SEEDS[1][1], "I", "CN(C)C.CI", core=False, family="degenerate-own-left"))
+    return out
+
+
 def worker_init():
     K.quiet()
 
@@ -221,9 +341,41 @@ def _its_json(g):
     return [ns, es]
 
 
+def _history_run(case, fn):
+    """run the steps of a history case IN ORDER IN THIS PROCESS (shared module state, shared substrate objects, in-place
+    edits between steps) and apply fn(step) to each"""
+    shared = {}
+    out = []
+    for st in case["steps"]:
+        st = dict(st)
+        ref = st.get("sub_ref")
+        if ref is not None:
+            if ref not in shared:
+                shared[ref] = K.sub_obj(st["sub"], st.get("sub_form"))
+            elif st.get("edit_to_sub"):
+                # the caller edits the SAME graph object in place between two calls
+                new = K.sub_obj(st["sub"], None)
+                shared[ref].clear()
+                shared[ref].add_nodes_from(new.nodes(data=True))
+                shared[ref].add_edges_from(new.edges(data=True))
+            st["_shared_sub"] = shared[ref]
+        try:
+            out.append(fn(st))
+        finally:
+            st.pop("_shared_sub", None)
+    return out
+
+
 def prepare(case):
     """Run the implementation once and record what the model needs as oracle inputs."""
     case = dict(case)
+    if case.get("kind") == "history":
+        steps = _history_run(case, prepare)
+        for st in steps:
+            st.pop("_shared_sub", None)
+        case["steps"] = steps
+        case["pre"] = {"history": True}
+        return case
     try:
         rec = K.run_reactor(case)
     except Exception as e:
@@ -289,6 +441,12 @@ def _valid_additive(base, rc, m):
 
 
 def impl(case):
+    if case.get("kind") == "history":
+        return _history_run(case, _impl_one)
+    return _impl_one(case)
+
+
+def _impl_one(case):
     from synkit.Graph.Hyrogen._misc import h_to_implicit, has_XH
     pre = case.get("pre")
     if pre is not None and ("error" in pre or "outside" in pre):
@@ -334,6 +492,8 @@ def impl(case):
     obs.append(calls)
     obs.append(0 if rec.its_err is None else 1)
     obs.append(1)                            # wf_rcb rule.rc && wf_hostb host (recomputed by the model)
+    if case.get("reads"):
+        return [obs, 1 if rec.reads_ok else 0]   # repeated reads of the cached attributes all gave the first value
     return obs
 
 
@@ -344,6 +504,13 @@ def _c_t5(t):
 
 
 def coq_case(case):
+    if case.get("kind") == "history":
+        if case.get("pre") is None:
+            case = prepare(case)
+        terms = [coq_case(st) for st in case["steps"]]
+        if any(t is None for t in terms):
+            return None          # a step outside the model's domain: only the oracle judges this history
+        return "L [%s]" % "; ".join("(%s)" % t for t in terms)
     pre = case.get("pre")
     if pre is None:
         pre = prepare(case)["pre"]
@@ -361,7 +528,10 @@ def coq_case(case):
         cr = "None" if remaps is None else "(Some %s)" % K.cl([K.cl(["(%s, %s)" % (K.cN(p), K.cN(h)) for p, h in x]) for x in remaps])
         calls.append("(%s, %s)" % (cm, cr))
     mode = case.get("mode", "E")
-    return "run_c03w %s %s %s %s %s %s" % (K.cb(case.get("invert", False)), K.cb(mode == "I"), K.cb(mode == "E"), host, tpl, K.cl(calls))
+    t = "run_c03w %s %s %s %s %s %s" % (K.cb(case.get("invert", False)), K.cb(mode == "I"), K.cb(mode == "E"), host, tpl, K.cl(calls))
+    if case.get("reads"):
+        return "L [%s; tbool true]" % t
+    return t
 
 
 # ------------------------------------------------------------------ property oracle (independent of the model)
@@ -373,6 +543,18 @@ def _case_key(case):
 
 
 def oracle(case):
+    if case.get("kind") == "history":
+        out = []
+        for i, fs in enumerate(_history_run(case, _oracle_one)):
+            for f in fs:
+                f = dict(f)
+                f["detail"] = "step %d of the history: %s" % (i + 1, f["detail"])
+                out.append(f)
+        return out[:4]
+    return _oracle_one(case)
+
+
+def _oracle_one(case):
     import copy
     pre = case.get("pre")
     if pre is not None and "error" in pre:
@@ -392,6 +574,10 @@ def oracle(case):
     base = _case_key(case)
     if rec.its_err is not None:
         fails.append(dict(clause="explicit-h-crash", detail="SynReactor._explicit_h raised %s" % rec.its_err))
+    for cl, msg in K.input_failures(case, rec.host):
+        fails.append(dict(clause="its-" + cl, detail=msg))
+    if not rec.reads_ok:
+        fails.append(dict(clause="unstable-reads", detail="mappings / its_list / smarts_list / smiles_list change between repeated reads of the same reactor"))
     seen = set()
     for i, its in enumerate(rec.its_list[:400]):
         for cl, msg in K.its_level_failures(rec.host, rec.tpl, its, inv):
@@ -414,7 +600,10 @@ def _string_level(case, rec, inv, base):
     if isinstance(sub, dict):
         return out
     try:
-        want = Chem.MolToSmiles(Chem.RemoveHs(Chem.MolFromSmiles(sub)))
+        wm = Chem.MolFromSmiles(sub)
+        for a in wm.GetAtoms():
+            a.SetAtomMapNum(0)
+        want = Chem.MolToSmiles(Chem.RemoveHs(wm))
     except Exception:
         return out
     for s in rec.smarts[:200]:
@@ -439,7 +628,24 @@ def _string_level(case, rec, inv, base):
 
 # ------------------------------------------------------------------ evidence helpers
 
+def _flat(case, obs):
+    """(single case, plain observable) pairs of a case (history cases have one per step; 'reads' wraps the observable)"""
+    if case.get("kind") == "history":
+        steps = case.get("steps") or []
+        if not isinstance(obs, list) or len(obs) != len(steps):
+            return []
+        out = []
+        for st, o in zip(steps, obs):
+            out += _flat(st, o)
+        return out
+    if case.get("reads") and isinstance(obs, list) and len(obs) == 2 and isinstance(obs[0], list):
+        obs = obs[0]
+    return [(case, obs)]
+
+
 def nontrivial(case, obs):
+    if case.get("kind") == "history" or case.get("reads"):
+        return any(nontrivial(c, o) for c, o in _flat(case, obs) if not (c.get("kind") == "history" or c.get("reads")))
     if not isinstance(obs, list) or len(obs) < 4 or obs[0] == "SKIP":
         return False
     calls = obs[3]
@@ -453,7 +659,15 @@ def distribution(cases, obss):
     d = dict(modes={}, strategies={}, direction={}, with_match=0, explicit_path=0, results=0, branch_absent=0, branch_additive=0,
              branch_overwrite=0, charge_changing_templates=0, hydrogen_changing_templates=0, skipped=0, explicit_h_stage=0,
              host_sizes={}, template_sizes={})
-    for c, o in zip(cases, obss):
+    d["kinds_api"] = {}
+    for c0, o0 in zip(cases, obss):
+        if c0.get("kind") in ("history", "api"):
+            k = c0.get("family", c0.get("kind"))
+            d["kinds_api"][k] = d["kinds_api"].get(k, 0) + 1
+    flat = []
+    for c0, o0 in zip(cases, obss):
+        flat += [(dict(c, reads=0, kind=c.get("kind") if c.get("kind") != "history" else "step"), o) for c, o in _flat(c0, o0)]
+    for c, o in flat:
         pre = c.get("pre") or {}
         if not isinstance(o, list) or len(o) < 4 or o[0] in ("SKIP", "EXC"):
             d["skipped"] += 1
@@ -626,7 +840,7 @@ def gen_cases(tier, rng):
     K.quiet()
     idx = {n: _wellformed(n) for n in ("usp", "eco")}
     pairs = json.load(open(os.path.join(K.VERIF, "corpus", "C03_pairs.json")))["pairs"]
-    cases = _hand_cases(rng, tier != "quick") + _multih_cases(rng, tier != "quick")
+    cases = _hand_cases(rng, tier != "quick") + _multih_cases(rng, tier != "quick") + _api_cases(rng, tier != "quick")
     strategies = ["all", "comp", "bt"]
     if tier == "quick":
         pick = {"usp": rng.sample(idx["usp"], 16), "eco": rng.sample(idx["eco"], 24)}     # 40 reactions
